@@ -117,4 +117,64 @@ theorem not_sdom_entry {E : α → α → Prop} {r d : α} : ¬ SDom E r d r := 
   simp at this
   exact hne this
 
+theorem Path.head_eq {E : α → α → Prop} {x v : α} {p : List α} (h : Path E x p v) :
+    ∃ q, p = x :: q := by
+  cases h with
+  | single => exact ⟨[], rfl⟩
+  | cons _ _ => exact ⟨_, rfl⟩
+
+/-- walking a path to v backwards: either some strict dominator d on it has a continuation to v that
+    meets no strict dominator after d, or the path meets no strict dominator at all -/
+theorem last_sdom_on_path {E : α → α → Prop} {r : α} (x v : α) (p : List α) (hp : Path E x p v) :
+    (∃ d, d ∈ p ∧ SDom E r d v ∧ ∃ q, Path E d (d :: q) v ∧ ∀ y ∈ q, ¬ SDom E r y v) ∨
+    ((∀ y ∈ p, ¬ SDom E r y v) ∧ ∃ q, Path E x (x :: q) v ∧ ∀ y ∈ q, ¬ SDom E r y v) := by
+  induction hp with
+  | single =>
+    right
+    refine ⟨?_, [], Path.single _, by simp⟩
+    intro y hy hs
+    simp at hy
+    exact hs.2 hy
+  | @cons x b c p' e hp' ih =>
+    rcases ih with ⟨d, hd, hs, hq⟩ | ⟨hno, q, hq, hqc⟩
+    · exact Or.inl ⟨d, List.mem_cons_of_mem _ hd, hs, hq⟩
+    · obtain ⟨t, ht⟩ := hp'.head_eq
+      have hb : ¬ SDom E r b c := hno b (by rw [ht]; exact List.mem_cons_self ..)
+      have hclean : ∀ y ∈ b :: q, ¬ SDom E r y c := by
+        intro y hy
+        rcases List.mem_cons.mp hy with h | h
+        · exact h ▸ hb
+        · exact hqc y h
+      by_cases hx : SDom E r x c
+      · exact Or.inl ⟨x, List.mem_cons_self .., hx, b :: q, Path.cons e hq, hclean⟩
+      · right
+        refine ⟨?_, b :: q, Path.cons e hq, hclean⟩
+        intro y hy
+        rcases List.mem_cons.mp hy with h | h
+        · exact h ▸ hx
+        · exact hno y h
+
+/-- every reachable vertex other than the entry has an immediate dominator: the last strict
+    dominator on any path from the entry (so the dominator tree exists, and by `idom_unique` is unique) -/
+theorem idom_exists {E : α → α → Prop} {r v : α} (hv : Reach E r v) (hne : v ≠ r) :
+    ∃ d, IDom E r d v := by
+  obtain ⟨p, hp, _⟩ := (reach_iff_avoiding_empty.mp hv).path
+  have hr : SDom E r r v := ⟨dominates_entry, fun h => hne h.symm⟩
+  rcases last_sdom_on_path (r := r) r v p hp with ⟨d, _, hs, q, hq, hqc⟩ | ⟨hno, _⟩
+  · refine ⟨d, hs, ?_⟩
+    intro d' hd'
+    by_cases hdd : d' = d
+    · rw [hdd]; exact dominates_refl
+    · rw [dominates_iff]
+      intro hra
+      have h2 : ReachAvoiding E (fun x => x = d') d v := by
+        apply hq.reachAvoiding
+        intro y hy e
+        rcases List.mem_cons.mp hy with h | h
+        · exact hdd (e.symm.trans h)
+        · exact hqc y h (e ▸ hd')
+      exact (dominates_iff.mp hd'.1) (hra.trans h2)
+  · obtain ⟨t, ht⟩ := hp.head_eq
+    exact absurd hr (hno r (by rw [ht]; exact List.mem_cons_self ..))
+
 end AgVerif.Spec
